@@ -510,6 +510,15 @@ class C10(World):
                     bad = same(V[np.asarray(g.faces)] if len(g.faces) else np.zeros((0, 3, 3)), pl[n][1][pl[n][2]] if len(pl[n][2]) else np.zeros((0, 3, 3)), RT, f"dump[{n}].triangles")
                 if bad:
                     fail(bad)
+            # the dumped geometries are the caller's to do with as it likes: it moves them
+            for g in got:
+                try:
+                    g.apply_translation([7.0, -3.0, 2.0])
+                except (KeyboardInterrupt, SystemExit, MemoryError):
+                    raise
+                except BaseException:
+                    pass
+            ctx.count("fault:dumped-geometry-edited-by-the-caller")
         elif obs in ("to_mesh", "to_geometry"):
             if len(T) == 0:
                 raise Inapplicable()
@@ -520,6 +529,12 @@ class C10(World):
             bad = same(canon_tris(np.asarray(got.triangles)), canon_tris(T), max(RT, 1e-6), obs)
             if bad:
                 fail(bad)
+            try:
+                got.apply_translation([-4.0, 9.0, 1.0])  # (the concatenated mesh is the caller's too)
+            except (KeyboardInterrupt, SystemExit, MemoryError):
+                raise
+            except BaseException:
+                pass
         elif obs == "is_valid":
             pass
         elif obs == "geometry_nodes":
